@@ -23,11 +23,6 @@
 //     fallthrough), return (also naked), :=, =, op=, ++, --, var, assignments
 //     to fields of the receiver or of local struct values; statements after a
 //     branching statement are duplicated into both branches;
-//   - `for range n { f(…); _ = g(…) }` over an integer n whose body consists
-//     only of calls with discarded results (trace mode): the body's trace
-//     entries are appended `n` times (`List.replicate n.toNat [...]`);
-//   - a `panic(…)` statement makes the result `none`, like every other
-//     run-time panic;
 //   - expressions: literals, constants (folded with go/types, so imported
 //     constants such as dns.MaxMsgSize are resolved from the dependency's
 //     export data), parameters, locals, field selectors, arithmetic,
@@ -43,26 +38,25 @@
 //     structure; every other struct type (time.Time, sync.Mutex, netip.Addr,
 //     dns.Msg, caches, …) is abstract: parameters of such types are dropped and
 //     an expression that reads from them (`req.Question[0].Qtype`) becomes an
-//     extra parameter `e<k>_<name>` holding its value; so does a type assertion
-//     `x.(T)` to a translatable type (the dynamic type is not modelled);
-//   - `len(x)` and `x == nil` / `x != nil` for x of abstract type (a slice of
-//     networks, a *dns.Msg local) are extra parameters `e<k>_len_<x>` : Int and
-//     `e<k>_isNil_<x>` : Bool (one per distinct expression);
+//     extra parameter `e<k>_<name>` holding its value;
+//   - a *value* of abstract type (local, result of an opaque call, parameter
+//     that is compared with nil) is modelled by what the code can observe of
+//     it: `AbsPtr` (true = non-nil) for pointers, interfaces, maps, slices, …,
+//     `Unit` otherwise; `&T{…}` of abstract type is non-nil; an assignment to a
+//     field of an abstract object (`resp.Compress = true`) is an effect and is
+//     appended to the trace as `("set resp.Compress", ["true"])`; values read
+//     from abstract objects are re-read (fresh parameters) after any opaque
+//     call or such a write;
 //   - []error literals, append on them and errors.Join are lists of optional
 //     texts and "first non-nil" (errors.Join is non-nil iff an element is);
 //   - any other call is *opaque*: its result becomes an extra parameter of the
 //     Lean definition (`o<k>_<callee>`, one per call site, in order of
 //     appearance) and, when "trace" is set, the definition also returns the
 //     list of opaque calls reached, in order, each with the values of its
-//     arguments of scalar type (with "trace_qual" the callee is recorded with
-//     its last qualifier, `Ratelimiter.Check` rather than `Check`) — so "which external effects happen, in which
+//     arguments of scalar type — so "which external effects happen, in which
 //     order and with which arguments" is part of the translated meaning; calls
 //     listed under "pure" are opaque values that are not traced; a call to a
 //     translated function that itself has opaque parameters is opaque too;
-//   - a local variable of abstract type (`var subnet netip.Prefix`,
-//     `raddr := rw.RemoteAddr()`, `next := mh.next`) carries no value: its
-//     declaration and assignments to it are dropped, except that an opaque call
-//     on the right-hand side is still recorded in the trace;
 //   - calls listed under "ignore" (mutex operations, logging, metrics) are
 //     dropped; methods listed under "identity" return their receiver;
 //   - "recv_nonnil" models a pointer receiver as the struct itself (the
@@ -105,10 +99,6 @@ type TrFunc struct {
 	Ignore []string `json:"ignore,omitempty"`
 	// Trace makes the definition return the list of opaque calls reached.
 	Trace bool `json:"trace,omitempty"`
-	// TraceQual records a traced call as "x.Method" (the last two components
-	// of the printed callee: field or variable, then method) instead of
-	// "Method", to tell `prof.Ratelimiter.Check` from `mw.limiter.Check`.
-	TraceQual bool `json:"trace_qual,omitempty"`
 	// RecvNonNil models the pointer receiver as the struct itself: callers
 	// are assumed never to pass nil (stated where it is used).
 	RecvNonNil bool `json:"recv_nonnil,omitempty"`
@@ -283,8 +273,8 @@ func (t *translator) leanType(ty types.Type) string {
 		}
 		return ""
 	case *types.Slice:
-		if isError(u.Elem()) {
-			return "(List (Option String))"
+		if el := t.leanType(u.Elem()); el != "" {
+			return "(List " + el + ")"
 		}
 		return ""
 	case *types.Interface:
@@ -295,11 +285,7 @@ func (t *translator) leanType(ty types.Type) string {
 	case *types.Tuple:
 		var parts []string
 		for i := 0; i < u.Len(); i++ {
-			p := t.leanType(u.At(i).Type())
-			if p == "" {
-				p = "Unit"
-			}
-			parts = append(parts, p)
+			parts = append(parts, t.valType(u.At(i).Type()))
 		}
 		if len(parts) == 0 {
 			return "Unit"
@@ -308,6 +294,24 @@ func (t *translator) leanType(ty types.Type) string {
 	}
 	return ""
 }
+
+// valType is the Lean type of a *value* (local, parameter that is compared with
+// nil, result of an opaque call): the translated type when there is one,
+// `AbsPtr` (its nil-ness: true = non-nil) for pointers, interfaces, maps,
+// channels, functions and slices of abstract type, `Unit` for other abstract
+// values.
+func (t *translator) valType(ty types.Type) string {
+	if lt := t.leanType(ty); lt != "" {
+		return lt
+	}
+	switch ty.Underlying().(type) {
+	case *types.Pointer, *types.Interface, *types.Map, *types.Chan, *types.Signature, *types.Slice:
+		return "AbsPtr"
+	}
+	return "Unit"
+}
+
+func (t *translator) isAbstract(ty types.Type) bool { return t.leanType(ty) == "" }
 
 func sanitize(s string) string {
 	r := strings.NewReplacer(".", "_", "/", "_", "-", "_", "*", "", "(", "", ")", "", "[", "_", "]", "_", " ", "")
@@ -396,7 +400,9 @@ type fctx struct {
 	derefd      map[string]string
 	trace       bool
 	localFns    map[string]*ast.FuncLit
+	loop        *loopCtx
 	opaqueVals  map[string]string
+	opaqueNodes map[ast.Expr]string
 	opaqueCalls map[*ast.CallExpr]string
 }
 
@@ -596,6 +602,26 @@ func (c *fctx) expr(e ast.Expr) ex {
 	case *ast.SelectorExpr:
 		return c.selector(x)
 	case *ast.UnaryExpr:
+		if cl, ok := x.X.(*ast.CompositeLit); ok && x.Op == token.AND && c.t.isAbstract(c.typeOf(x)) {
+			// a freshly allocated abstract object: non-nil; calls among its
+			// elements are evaluated (for the trace)
+			var xs []ex
+			for _, el := range cl.Elts {
+				v := el
+				if kv, ok := el.(*ast.KeyValueExpr); ok {
+					v = kv.Value
+				}
+				if _, isCall := v.(*ast.CallExpr); isCall {
+					xs = append(xs, c.expr(v))
+				}
+			}
+			return c.bindN(xs, func(s []string) string {
+				if len(s) == 0 {
+					return "true"
+				}
+				return "(Function.const _ true (" + strings.Join(s, ", ") + "))"
+			})
+		}
 		a := c.expr(x.X)
 		switch x.Op {
 		case token.NOT:
@@ -613,7 +639,7 @@ func (c *fctx) expr(e ast.Expr) ex {
 	case *ast.BasicLit:
 		fail("literal %s without constant value", x.Value)
 	case *ast.CompositeLit:
-		if sl, ok := c.typeOf(x).Underlying().(*types.Slice); ok && isError(sl.Elem()) {
+		if sl, ok := c.typeOf(x).Underlying().(*types.Slice); ok && c.t.leanType(sl.Elem()) != "" {
 			var xs []ex
 			for _, el := range x.Elts {
 				xs = append(xs, c.exprAs(el, sl.Elem()))
@@ -621,10 +647,16 @@ func (c *fctx) expr(e ast.Expr) ex {
 			return c.bindN(xs, func(s []string) string { return "[" + strings.Join(s, ", ") + "]" })
 		}
 	}
-	if _, ok := e.(*ast.IndexExpr); ok {
-		return c.opaqueValue(e)
-	}
-	if _, ok := e.(*ast.TypeAssertExpr); ok {
+	if ix, ok := e.(*ast.IndexExpr); ok {
+		if _, isSl := c.typeOf(ix.X).Underlying().(*types.Slice); isSl && c.t.leanType(c.typeOf(ix.X)) != "" && isInt(c.typeOf(ix.Index)) {
+			// out of range => panic
+			c.partial = true
+			r := c.bindN([]ex{c.expr(ix.X), c.expr(ix.Index)}, func(s []string) string { return "(goIndex? " + s[0] + " " + s[1] + ")" })
+			if r.partial {
+				return ex{code: "(Option.join " + r.code + ")", partial: true}
+			}
+			return ex{code: r.code, partial: true}
+		}
 		return c.opaqueValue(e)
 	}
 	fail("expression %s (%T)", c.show(e), e)
@@ -642,28 +674,24 @@ func (c *fctx) opaqueValue(e ast.Expr) ex {
 	if c.opaqueVals == nil {
 		c.opaqueVals = map[string]string{}
 	}
+	if c.opaqueNodes == nil {
+		c.opaqueNodes = map[ast.Expr]string{}
+	}
+	// the same source expression in the two copies of a duplicated
+	// continuation is one parameter (only one copy runs)
+	if n, ok := c.opaqueNodes[e]; ok {
+		c.opaqueVals[key] = n
+		return ex{code: n}
+	}
 	if n, ok := c.opaqueVals[key]; ok {
+		c.opaqueNodes[e] = n
 		return ex{code: n}
 	}
 	c.nOpaque++
 	name := fmt.Sprintf("e%d_%s", c.nOpaque, sanitize(lastName(key)))
 	c.opaque = append(c.opaque, fmt.Sprintf("(%s : %s)", name, lt))
 	c.opaqueVals[key] = name
-	return ex{code: name}
-}
-
-// opaqueNamed is opaqueValue with an explicit key, parameter name and Lean type.
-func (c *fctx) opaqueNamed(key, base, lt string) ex {
-	if c.opaqueVals == nil {
-		c.opaqueVals = map[string]string{}
-	}
-	if n, ok := c.opaqueVals[key]; ok {
-		return ex{code: n}
-	}
-	c.nOpaque++
-	name := fmt.Sprintf("e%d_%s", c.nOpaque, base)
-	c.opaque = append(c.opaque, fmt.Sprintf("(%s : %s)", name, lt))
-	c.opaqueVals[key] = name
+	c.opaqueNodes[e] = name
 	return ex{code: name}
 }
 
@@ -733,14 +761,12 @@ func (c *fctx) binary(x *ast.BinaryExpr) ex {
 			if c.isRecvVal(x.X) {
 				return ex{code: fmt.Sprint(x.Op == token.NEQ)}
 			}
-			if c.t.leanType(tx) == "" {
-				if _, isId := x.X.(*ast.Ident); isId {
-					v := c.opaqueNamed(c.show(x.X)+" == nil", "isNil_"+sanitize(c.show(x.X)), "Bool")
-					if x.Op == token.NEQ {
-						return ex{code: "(!" + v.code + ")"}
-					}
-					return v
+			if c.t.valType(tx) == "AbsPtr" {
+				a := c.expr(x.X)
+				if x.Op == token.NEQ {
+					return a
 				}
+				return c.bindN([]ex{a}, func(s []string) string { return "(!" + s[0] + ")" })
 			}
 			a := c.expr(x.X)
 			m := "isNone"
@@ -878,7 +904,7 @@ func (c *fctx) call(x *ast.CallExpr) ex {
 			switch id.Name {
 			case "append":
 				sl, ok := c.typeOf(x.Args[0]).Underlying().(*types.Slice)
-				if !ok || !isError(sl.Elem()) || x.Ellipsis.IsValid() {
+				if !ok || c.t.leanType(sl.Elem()) == "" || x.Ellipsis.IsValid() {
 					fail("append %s", c.show(x))
 				}
 				xs := []ex{c.expr(x.Args[0])}
@@ -886,6 +912,17 @@ func (c *fctx) call(x *ast.CallExpr) ex {
 					xs = append(xs, c.exprAs(a, sl.Elem()))
 				}
 				return c.bindN(xs, func(s []string) string { return "(" + s[0] + " ++ [" + strings.Join(s[1:], ", ") + "])" })
+			case "len":
+				at := c.typeOf(x.Args[0])
+				if _, ok := at.Underlying().(*types.Slice); ok && c.t.leanType(at) != "" {
+					a := c.expr(x.Args[0])
+					return c.bindN([]ex{a}, func(s []string) string { return "(" + s[0] + ".length : Int)" })
+				}
+				if isString(at) {
+					a := c.expr(x.Args[0])
+					return c.bindN([]ex{a}, func(s []string) string { return "(" + s[0] + ".utf8ByteSize : Int)" })
+				}
+				return c.opaqueValue(x)
 			case "min", "max":
 				var xs []ex
 				for _, a := range x.Args {
@@ -898,9 +935,6 @@ func (c *fctx) call(x *ast.CallExpr) ex {
 					}
 					return r
 				})
-			}
-			if id.Name == "len" && len(x.Args) == 1 && c.t.leanType(c.typeOf(x.Args[0])) == "" {
-				return c.opaqueNamed(c.show(x), "len_"+sanitize(lastName(c.show(x.Args[0]))), "Int")
 			}
 			fail("builtin %s", id.Name)
 		}
@@ -959,6 +993,14 @@ func (c *fctx) call(x *ast.CallExpr) ex {
 			return "(if " + fmt.Sprintf(test, s[1]) + " then some (" + s[0] + " ++ \": not positive\") else none)"
 		})
 	}
+	if fn, ok := map[string]string{"strings.TrimPrefix": "goTrimPrefix", "strings.TrimSuffix": "goTrimSuffix", "strings.HasPrefix": "goHasPrefix",
+		"strings.HasSuffix": "goHasSuffix", "strings.SplitN": "goSplitN", "strings.Split": "goSplit", "strings.Contains": "goContains"}[key]; ok {
+		var xs []ex
+		for _, a := range x.Args {
+			xs = append(xs, c.expr(a))
+		}
+		return c.bindN(xs, func(s []string) string { return "(" + fn + " " + strings.Join(s, " ") + ")" })
+	}
 	// translated functions
 	if fo := c.t.lookup(key); fo != nil && len(fo.paramsOpaque()) == 0 && !fo.spec.Trace {
 		var xs []ex
@@ -988,10 +1030,8 @@ func (c *fctx) call(x *ast.CallExpr) ex {
 		}
 	}
 	// opaque call
-	lt := c.t.leanType(c.typeOf(x))
-	if lt == "" {
-		fail("opaque call %s returns untranslatable type %s", c.show(x), c.typeOf(x))
-	}
+	lt := c.t.valType(c.typeOf(x))
+	c.opaqueVals = nil // an external call may change what abstract objects hold
 	if c.opaqueCalls == nil {
 		c.opaqueCalls = map[*ast.CallExpr]string{}
 	}
@@ -1015,11 +1055,7 @@ func (c *fctx) traceEntry(x *ast.CallExpr) string {
 	for _, a := range x.Args {
 		args = append(args, c.traceArg(a))
 	}
-	name := lastName(c.show(x.Fun))
-	if parts := strings.Split(c.show(x.Fun), "."); c.spec.TraceQual && len(parts) >= 2 {
-		name = strings.Join(parts[len(parts)-2:], ".")
-	}
-	return fmt.Sprintf("(%q, [%s])", name, strings.Join(args, ", "))
+	return fmt.Sprintf("(%q, [%s])", lastName(c.show(x.Fun)), strings.Join(args, ", "))
 }
 
 func (c *fctx) traceArg(a ast.Expr) (code string) {
@@ -1031,6 +1067,9 @@ func (c *fctx) traceArg(a ast.Expr) (code string) {
 			}
 		}
 	}()
+	if id, ok := a.(*ast.Ident); ok && id.Name == "_" {
+		return code
+	}
 	tv, ok := c.p.info.Types[a]
 	if !ok || tv.Type == nil {
 		return code
@@ -1053,6 +1092,9 @@ func (c *fctx) traceArg(a ast.Expr) (code string) {
 }
 
 func lastName(s string) string {
+	if i := strings.Index(s, "["); i > 0 && strings.HasSuffix(s, "]") && !strings.Contains(s[i:], ".") || i > 0 && strings.HasSuffix(s, "]") && strings.HasPrefix(s[i:], "[*") {
+		s = s[:i] // generic instantiation f[T]
+	}
 	if i := strings.LastIndex(s, "."); i >= 0 {
 		return s[i+1:]
 	}
@@ -1152,10 +1194,145 @@ func (c *fctx) ret(vals []string) string {
 	default:
 		r = "(" + strings.Join(parts, ", ") + ")"
 	}
+	if c.loop != nil {
+		return "«step»(.ret " + r + ")"
+	}
 	return "«ret»" + r
 }
 
+// loopCtx is the innermost enclosing range loop: its carried variables.
+type loopCtx struct {
+	state []string
+}
+
+func (c *fctx) stateTuple(vars []string) string {
+	switch len(vars) {
+	case 0:
+		return "()"
+	case 1:
+		return vars[0]
+	}
+	return "(" + strings.Join(vars, ", ") + ")"
+}
+
+// rangeLoop translates `for i, x := range xs { body }` over a translatable
+// slice: the variables declared outside the loop and assigned inside it (plus
+// the call trace) are the loop state; the body maps a state and an element to
+// `Step.next state'` (also for continue), `Step.brk state'` or `Step.ret r`
+// (a return of the enclosing function).
+func (c *fctx) rangeLoop(x *ast.RangeStmt, rest []ast.Stmt) string {
+	if x.Tok != token.DEFINE && (x.Key != nil || x.Value != nil) {
+		fail("range with assignment to existing variables")
+	}
+	sl, ok := c.typeOf(x.X).Underlying().(*types.Slice)
+	if !ok || c.t.leanType(c.typeOf(x.X)) == "" {
+		fail("range over %s", c.typeOf(x.X))
+	}
+	elT := c.t.leanType(sl.Elem())
+	// carried variables
+	var vars, varTypes []string
+	seen := map[string]bool{}
+	add := func(id *ast.Ident) {
+		obj := c.p.info.Uses[id]
+		if obj == nil || seen[id.Name] {
+			return
+		}
+		if obj.Pos() >= x.Pos() && obj.Pos() <= x.End() {
+			return // declared inside the loop
+		}
+		lt := c.t.leanType(obj.Type())
+		if pt, isPtr := obj.Type().(*types.Pointer); isPtr && c.recvVal && id.Name == c.recv {
+			lt = c.t.leanType(pt.Elem())
+		}
+		if lt == "" {
+			fail("loop assigns %s of untranslatable type", id.Name)
+		}
+		seen[id.Name] = true
+		vars = append(vars, leanIdent(id.Name))
+		varTypes = append(varTypes, lt)
+	}
+	ast.Inspect(x.Body, func(n ast.Node) bool {
+		var targets []ast.Expr
+		switch s := n.(type) {
+		case *ast.AssignStmt:
+			if s.Tok != token.DEFINE {
+				targets = s.Lhs
+			} else {
+				// := may also assign existing variables
+				for _, l := range s.Lhs {
+					if id, ok := l.(*ast.Ident); ok && c.p.info.Defs[id] == nil {
+						targets = append(targets, l)
+					}
+				}
+			}
+		case *ast.IncDecStmt:
+			targets = []ast.Expr{s.X}
+		case *ast.FuncLit:
+			return false
+		}
+		for _, l := range targets {
+			switch t := l.(type) {
+			case *ast.Ident:
+				if t.Name != "_" {
+					add(t)
+				}
+			case *ast.SelectorExpr:
+				if id, ok := t.X.(*ast.Ident); ok {
+					add(id)
+				}
+			}
+		}
+		return true
+	})
+	if c.trace {
+		vars = append(vars, "tr")
+		varTypes = append(varTypes, "(List (String × List String))")
+	}
+	sigma := "Unit"
+	if len(varTypes) == 1 {
+		sigma = varTypes[0]
+	} else if len(varTypes) > 1 {
+		sigma = "(" + strings.Join(varTypes, " × ") + ")"
+	}
+	key, val := "_", "_"
+	if id, ok := x.Key.(*ast.Ident); ok && x.Key != nil {
+		key = leanIdent(id.Name)
+	}
+	if id, ok := x.Value.(*ast.Ident); ok && x.Value != nil {
+		val = leanIdent(id.Name)
+	}
+	coll := c.expr(x.X)
+	return c.withEx(coll, func(collCode string) string {
+		savedLoop, savedPartial := c.loop, c.partial
+		c.loop, c.partial = &loopCtx{state: vars}, false
+		body := c.stmts(x.Body.List)
+		bodyPartial := c.partial
+		c.loop, c.partial = savedLoop, savedPartial || bodyPartial
+		rho := "«rho»"
+		fn, wrap := "goRange", ""
+		if bodyPartial {
+			fn, wrap = "goRange?", "some "
+		}
+		body = strings.ReplaceAll(body, "«step»", wrap)
+		destr := ""
+		if len(vars) > 1 {
+			destr = "let " + c.stateTuple(vars) + " := st\n"
+		} else if len(vars) == 1 {
+			destr = "let " + vars[0] + " := st\n"
+		}
+		loop := fmt.Sprintf("%s (σ := %s) (ρ := %s) %s %s fun st (%s : Int) (%s : %s) =>\n%s", fn, sigma, rho, collCode, c.stateTuple(vars), key, val, elT, indent(destr+body))
+		after := c.stmts(rest)
+		if bodyPartial {
+			return fmt.Sprintf("match %s with\n| none => none\n| some (.inr r) => «ret»r\n| some (.inl st) =>\n%s", loop, indent(destr+after))
+		}
+		return fmt.Sprintf("match %s with\n| .inr r => «ret»r\n| .inl st =>\n%s", loop, indent(destr+after))
+	})
+}
+
 func (c *fctx) stmts(list []ast.Stmt) string {
+	if len(list) == 0 && c.loop != nil {
+		return "«step»(.next " + c.stateTuple(c.loop.state) + ")"
+	}
 	if len(list) == 0 {
 		// fell off the end
 		if len(c.results) == 0 || c.named {
@@ -1217,6 +1394,18 @@ func (c *fctx) stmts(list []ast.Stmt) string {
 		})
 	case *ast.SwitchStmt:
 		return c.stmts(append(c.desugarSwitch(x), rest...))
+	case *ast.RangeStmt:
+		return c.rangeLoop(x, rest)
+	case *ast.BranchStmt:
+		if c.loop != nil && x.Label == nil {
+			switch x.Tok {
+			case token.CONTINUE:
+				return "«step»(.next " + c.stateTuple(c.loop.state) + ")"
+			case token.BREAK:
+				return "«step»(.brk " + c.stateTuple(c.loop.state) + ")"
+			}
+		}
+		fail("branch statement %s", x.Tok)
 	case *ast.BlockStmt:
 		return c.stmts(append(append([]ast.Stmt{}, x.List...), rest...))
 	case *ast.EmptyStmt:
@@ -1233,11 +1422,8 @@ func (c *fctx) stmts(list []ast.Stmt) string {
 				fail("var with values %s", c.show(x))
 			}
 			for _, n := range vs.Names {
-				if c.t.leanType(c.p.info.Defs[n].Type()) == "" {
-					continue // abstract local, see abstractAssign
-				}
 				z := c.zero(c.p.info.Defs[n].Type())
-				out += fmt.Sprintf("let %s : %s := %s\n", leanIdent(n.Name), c.t.leanType(c.p.info.Defs[n].Type()), z)
+				out += fmt.Sprintf("let %s : %s := %s\n", leanIdent(n.Name), c.t.valType(c.p.info.Defs[n].Type()), z)
 			}
 		}
 		return out + c.stmts(rest)
@@ -1264,49 +1450,10 @@ func (c *fctx) stmts(list []ast.Stmt) string {
 		if c.matches(c.spec.Ignore, call) {
 			return c.stmts(rest)
 		}
-		if id, ok := call.Fun.(*ast.Ident); ok && id.Name == "panic" {
-			if _, isB := c.p.info.Uses[id].(*types.Builtin); isB {
-				c.partial = true
-				return "none"
-			}
-		}
 		if !c.trace {
 			fail("call statement %s (not ignored, no trace)", c.show(x))
 		}
 		return "let tr := tr ++ [" + c.traceEntry(call) + "]\n" + c.stmts(rest)
-	case *ast.RangeStmt:
-		// for range n { opaque calls whose results are discarded }
-		if x.Key != nil || x.Value != nil || !isInt(c.typeOf(x.X)) || !c.trace {
-			fail("range statement %s", c.show(x))
-		}
-		var entries []string
-		for _, b := range x.Body.List {
-			var call *ast.CallExpr
-			switch bs := b.(type) {
-			case *ast.ExprStmt:
-				call, _ = bs.X.(*ast.CallExpr)
-			case *ast.AssignStmt:
-				blank := len(bs.Rhs) == 1
-				for _, l := range bs.Lhs {
-					if id, ok := l.(*ast.Ident); !ok || id.Name != "_" {
-						blank = false
-					}
-				}
-				if blank {
-					call, _ = bs.Rhs[0].(*ast.CallExpr)
-				}
-			}
-			if call == nil {
-				fail("statement %s in a counted loop", c.show(b))
-			}
-			if c.matches(c.spec.Ignore, call) {
-				continue
-			}
-			entries = append(entries, c.traceEntry(call))
-		}
-		return c.withEx(c.expr(x.X), func(code string) string {
-			return fmt.Sprintf("let tr := tr ++ (List.replicate (Int.toNat %s) [%s]).flatten\n", code, strings.Join(entries, ", ")) + c.stmts(rest)
-		})
 	case *ast.DeferStmt:
 		if c.matches(c.spec.Ignore, x.Call) {
 			return c.stmts(rest)
@@ -1352,6 +1499,14 @@ func (c *fctx) zero(t types.Type) string {
 		return "\"\""
 	case strings.HasPrefix(lt, "(Option"):
 		return "none"
+	case strings.HasPrefix(lt, "(List"):
+		return "[]"
+	}
+	switch c.t.valType(t) {
+	case "AbsPtr":
+		return "false"
+	case "Unit":
+		return "()"
 	}
 	fail("zero value of %s", t)
 	return ""
@@ -1410,6 +1565,28 @@ func (c *fctx) desugarSwitch(x *ast.SwitchStmt) []ast.Stmt {
 }
 
 func (c *fctx) assignStmt(x *ast.AssignStmt, rest []ast.Stmt) string {
+	if len(x.Lhs) == 1 && len(x.Rhs) == 1 && c.abstractTarget(x.Lhs[0]) {
+		op := ""
+		if x.Tok != token.ASSIGN {
+			op = " " + x.Tok.String()
+		}
+		isBuiltin := func(call *ast.CallExpr) bool {
+			id, ok := call.Fun.(*ast.Ident)
+			if !ok {
+				return false
+			}
+			_, b := c.p.info.Uses[id].(*types.Builtin)
+			return b
+		}
+		if call, ok := x.Rhs[0].(*ast.CallExpr); ok && !isBuiltin(call) {
+			// evaluate the call first (for the trace), then record the write
+			e := c.expr(call)
+			return c.withEx(e, func(string) string {
+				return c.abstractWrite(x.Lhs[0], op, &ast.Ident{Name: "_"}, func() string { return c.stmts(rest) })
+			})
+		}
+		return c.abstractWrite(x.Lhs[0], op, x.Rhs[0], func() string { return c.stmts(rest) })
+	}
 	if x.Tok != token.ASSIGN && x.Tok != token.DEFINE {
 		// op=
 		if len(x.Lhs) != 1 {
@@ -1426,9 +1603,6 @@ func (c *fctx) assignStmt(x *ast.AssignStmt, rest []ast.Stmt) string {
 	}
 	if len(x.Lhs) == len(x.Rhs) {
 		if len(x.Lhs) == 1 {
-			if id, ok := x.Lhs[0].(*ast.Ident); ok && id.Name != "_" && c.lhsType(id) != nil && c.t.leanType(c.lhsType(id)) == "" {
-				return c.abstractAssign(x.Rhs[0], rest)
-			}
 			return c.assign(x.Lhs[0], c.exprAs(x.Rhs[0], c.lhsType(x.Lhs[0])), rest, nil)
 		}
 		// parallel assignment: evaluate all, then assign
@@ -1474,19 +1648,6 @@ func (c *fctx) assignStmt(x *ast.AssignStmt, rest []ast.Stmt) string {
 	return ""
 }
 
-// abstractAssign handles `x := e` / `x = e` for a local x of abstract type: the
-// variable carries no value; if e is an opaque call, the call itself is still
-// recorded in the trace.
-func (c *fctx) abstractAssign(e ast.Expr, rest []ast.Stmt) string {
-	call, ok := e.(*ast.CallExpr)
-	if tv, isT := c.p.info.Types[e]; ok && isT && tv.Type != nil && c.trace {
-		if ft, okF := c.p.info.Types[call.Fun]; !(okF && ft.IsType()) && !c.matches(c.spec.Ignore, call) && !c.matches(c.spec.Pure, call) {
-			return "let tr := tr ++ [" + c.traceEntry(call) + "]\n" + c.stmts(rest)
-		}
-	}
-	return c.stmts(rest)
-}
-
 func (c *fctx) lhsType(l ast.Expr) types.Type {
 	if id, ok := l.(*ast.Ident); ok {
 		if id.Name == "_" {
@@ -1513,6 +1674,33 @@ func (c *fctx) assign(lhs ast.Expr, e ex, rest []ast.Stmt, _ ast.Expr) string {
 }
 
 // assignCode emits `lhs := code` followed by k().
+// abstractTarget reports whether lhs is a field (path) of an abstract object.
+func (c *fctx) abstractTarget(lhs ast.Expr) bool {
+	se, ok := lhs.(*ast.SelectorExpr)
+	if !ok {
+		return false
+	}
+	if id, ok := se.X.(*ast.Ident); ok {
+		if _, isPkg := c.p.info.Uses[id].(*types.PkgName); isPkg {
+			return false
+		}
+	}
+	return c.t.isAbstract(c.typeOf(se.X)) || c.abstractTarget(se.X)
+}
+
+// abstractWrite records an assignment to a field of an abstract object in the trace.
+func (c *fctx) abstractWrite(lhs ast.Expr, op string, rhs ast.Expr, k func() string) string {
+	if !c.trace {
+		fail("assignment to %s, a field of an abstract object (needs trace)", c.show(lhs))
+	}
+	val := c.traceArg(rhs)
+	if val == "\"_\"" {
+		val = fmt.Sprintf("%q", c.show(rhs))
+	}
+	c.opaqueVals = nil
+	return fmt.Sprintf("let tr := tr ++ [(%q, [%s])]\n", "set "+c.show(lhs)+op, val) + k()
+}
+
 func (c *fctx) assignCode(lhs ast.Expr, code string, k func() string) string {
 	switch l := lhs.(type) {
 	case *ast.Ident:
@@ -1615,11 +1803,7 @@ func (t *translator) translate(sp TrFunc) (fo *funcOut) {
 		if lt == "" {
 			fail("receiver type %s", sig.Recv().Type())
 		}
-		if c.recv == "" {
-			params = append(params, fmt.Sprintf("(_ : %s)", lt)) // unnamed receiver
-		} else {
-			params = append(params, fmt.Sprintf("(%s : %s)", leanIdent(c.recv), lt))
-		}
+		params = append(params, fmt.Sprintf("(%s : %s)", leanIdent(c.recv), lt))
 		// is a field of the receiver assigned anywhere?
 		ast.Inspect(fd.Body, func(n ast.Node) bool {
 			var targets []ast.Expr
@@ -1639,11 +1823,27 @@ func (t *translator) translate(sp TrFunc) (fo *funcOut) {
 			return true
 		})
 	}
+	nilCompared := map[string]bool{}
+	ast.Inspect(fd.Body, func(n ast.Node) bool {
+		if be, ok := n.(*ast.BinaryExpr); ok && (be.Op == token.EQL || be.Op == token.NEQ) {
+			for _, pair := range [][2]ast.Expr{{be.X, be.Y}, {be.Y, be.X}} {
+				if id, ok := pair[1].(*ast.Ident); ok && id.Name == "nil" {
+					if v, ok := pair[0].(*ast.Ident); ok {
+						nilCompared[v.Name] = true
+					}
+				}
+			}
+		}
+		return true
+	})
 	for i := 0; i < sig.Params().Len(); i++ {
 		v := sig.Params().At(i)
 		lt := t.leanType(v.Type())
 		if lt == "" {
-			// unused or only passed to opaque calls: drop it
+			if nilCompared[v.Name()] && t.valType(v.Type()) == "AbsPtr" {
+				params = append(params, fmt.Sprintf("(%s : AbsPtr)", leanIdent(v.Name())))
+			}
+			// otherwise unused or only passed to opaque calls: drop it
 			continue
 		}
 		params = append(params, fmt.Sprintf("(%s : %s)", leanIdent(v.Name()), lt))
@@ -1687,6 +1887,7 @@ func (t *translator) translate(sp TrFunc) (fo *funcOut) {
 	} else if len(resTypes) > 1 {
 		rt = "(" + strings.Join(resTypes, " × ") + ")"
 	}
+	body = strings.ReplaceAll(body, "«rho»", rt)
 	fo.partial = c.partial
 	if c.partial {
 		rt = "(Option " + rt + ")"
